@@ -818,7 +818,13 @@ class VM:
         return False
 
     def st_Raise(self, s, fr, c):
-        e = c.ev(s.exc)
+        e = c.live(c.ev(s.exc))
+        if isinstance(e, SChoice):
+            # the exception object depends on the input (e.g. its message names a symbolic element): one raise per alternative
+            for (ga, ea) in e.alts:
+                c.raise_(ga, ea() if isinstance(ea, type) else ea)
+            c.raise_(True, Unsupported('raise of an empty union'))
+            return False
         if isinstance(e, type):
             e = e()
         c.raise_(True, e)
@@ -1249,6 +1255,11 @@ class Ctx:
                         oa[ka] = merge(gg, v, oa[ka])
                 elif isinstance(oa, list) and gg is True and isinstance(ka, int) and not isinstance(ka, bool):
                     oa[ka] = v           # a concrete native list written on every path: the write happens natively
+                elif isinstance(oa, MList) and isinstance(ka, int) and not isinstance(ka, bool) and isinstance(oa.len, int) and -oa.len <= ka < oa.len:
+                    i = ka if ka >= 0 else ka + oa.len        # list of known length, concrete index: a guarded write of one slot
+                    oa.slots[i] = merge(gg, v, oa.slots[i])
+                elif isinstance(oa, MList) and isinstance(ka, int) and not isinstance(ka, bool) and 0 <= ka < oa.lo:
+                    oa.slots[ka] = merge(gg, v, oa.slots[ka])  # index below the least possible length
                 else:
                     raise Unsupported('setitem on %r' % (oa,))
 
@@ -2560,6 +2571,58 @@ def m_isinstance(ctx, o, cls):
     return mk_bool(fold_b(o, one))
 
 
+_NODEFAULT = object()
+
+
+def m_getattr(ctx, o, name, default=_NODEFAULT):
+    """getattr(o, name[, default]) on a union of modelled / native objects; a missing attribute gives the default or AttributeError"""
+    if not isinstance(name, str):
+        raise Unsupported('getattr with a symbolic attribute name')
+
+    def missing(oa):
+        if default is not _NODEFAULT:
+            return default
+        ctx.raise_(True, AttributeError('%r object has no attribute %r' % (getattr(getattr(oa, 'cls', type(oa)), '__name__', '?'), name)))
+        return None
+
+    def one(oa):
+        if isinstance(oa, MObj):
+            if name in oa.attrs:
+                v = oa.attrs[name]
+                if v is UNDEF:
+                    return missing(oa)
+                if isinstance(v, SChoice) and any(va is UNDEF for _, va in v.alts):
+                    return ctx.call_each(v, lambda va: missing(oa) if va is UNDEF else va)
+                return v
+            if name == '__class__' or any(name in c.__dict__ for c in oa.cls.__mro__):
+                return ctx.getattr1(oa, name)
+            return missing(oa)
+        if isinstance(oa, (MSet, MDict, MList, SuperProxy)) or (isinstance(oa, type) and oa.__module__ in ctx.vm.mods):
+            return ctx.getattr1(oa, name)
+        try:
+            return getattr(oa, name)
+        except AttributeError:
+            return missing(oa)
+    return ctx.call_each(ctx.live(o), one)
+
+
+def m_hasattr(ctx, o, name):
+    def one(oa):
+        if isinstance(oa, MObj):
+            if name in oa.attrs:
+                v = oa.attrs[name]
+                if v is UNDEF:
+                    return False
+                if isinstance(v, SChoice):
+                    return b_not(b_or(*[ga for ga, va in v.alts if va is UNDEF])) if any(va is UNDEF for _, va in v.alts) else True
+                return True
+            return name == '__class__' or any(name in c.__dict__ for c in oa.cls.__mro__)
+        if isinstance(oa, (MSet, MDict, MList)):
+            return hasattr({MSet: set, MDict: dict, MList: list}[type(oa)], name)
+        return hasattr(oa, name)
+    return mk_bool(fold_b(o, one))
+
+
 def m_super(ctx, cls=None, obj=None):
     if cls is None:
         # zero-argument form: the class comes from the method's __class__ cell, the instance is its first parameter
@@ -2750,9 +2813,10 @@ def m_zip(ctx, *its):
 
 
 def m_reversed(ctx, it):
-    if isinstance(it, MList) and it.lo != it.hi:
-        raise Unsupported('reversed() of a list of symbolic length')
     plan = [(g, v) for g, v in ctx.iter_plan(it) if g is not False]
+    if isinstance(it, MList):
+        # slot i exists iff len > i: the reversed sequence visits the same guarded slots from the last possible one down
+        return GSeq(list(reversed(plan)))
     if not all(g is True for g, _ in plan):
         raise Unsupported('reversed over symbolic membership')
     return GSeq(list(reversed(plan)))
@@ -2776,4 +2840,4 @@ def m_chain(ctx, *its):
 import collections as _collections
 import itertools as _itertools
 MODELS = {_itertools.product: m_product, _itertools.chain: m_chain, _collections.deque: m_deque, enumerate: m_enumerate, zip: m_zip, reversed: m_reversed, weakref.ref: m_weakref_ref, weakref.WeakValueDictionary: m_dict, weakref.WeakKeyDictionary: m_dict, any: m_any, all: m_all, bool: m_bool, max: m_max, tuple: m_tuple, frozenset: m_frozenset, weakref.WeakSet: m_set, id: m_id, set: m_set, dict: m_dict, list: m_list, len: m_len, iter: m_iter, next: m_next, min: m_min,
-          isinstance: m_isinstance, super: m_super, range: m_range, sum: m_sum, str: m_str, sorted: m_sorted}
+          isinstance: m_isinstance, getattr: m_getattr, hasattr: m_hasattr, super: m_super, range: m_range, sum: m_sum, str: m_str, sorted: m_sorted}
